@@ -4,7 +4,7 @@ import functools
 
 from .. import isagen as G
 from .. import llvmref as L
-from ..core import Discard, Stats, hyp_search, subseed
+from ..core import Discard, Stats, hyp_search, open_finding_ids, subseed
 
 PID = "C09"
 RULE = (
@@ -508,15 +508,16 @@ def _worker(arg):
         stats.hist["classes/%s" % target] = len(allc)
     fails = []
     pending = []
+    open_ids = open_finding_ids(PID)
     for cid in cids:
         if not G.supported(target, cid):
             stats.discard("unsupported operand kind")
             continue
         kf = class_exclusion(target, cid)
-        if kf:
+        if kf and kf in open_ids:
             stats.excluded[kf] += 1
             continue
-        excl = ctor_exclusions(target, cid)
+        excl = {n: k_ for n, k_ in ctor_exclusions(target, cid).items() if k_ in open_ids}
         try:
             strat = G.args_strategy(target, cid, exclude_ctors=frozenset(excl))
         except G.BuildError:
@@ -539,7 +540,8 @@ def _worker(arg):
             return r.msg if r.status == "fail" else None
 
         def cl(args, msg, cid=cid):
-            return classify({"target": target, "cls": cid, "args": args}, msg)
+            kf = classify({"target": target, "cls": cid, "args": args}, msg)
+            return kf if kf in open_ids else None  # only findings still open may suppress
 
         found = hyp_search(strat, prop, n_per_class, subseed(seed, cid), stats, classify=cl)
         for args, msg in found:
@@ -554,7 +556,8 @@ BIG = {"stm8": 4, "x86_64": 6, "msp430": 3, "m68k": 3, "mcs6500": 3, "arm": 2, "
 
 
 def run(ctx):
-    per_target = ctx.scale(1200, 100000)
+    per_target = ctx.scale(800, 100000)
+    G.configure(thorough=not ctx.quick)
     G.preload()
     tasks = []
     for target in G.TARGETS:
